@@ -53,6 +53,8 @@ MonInitVal ==
     planRaised |-> "",           \* exception kind the main plan ended with
     devErrPending |-> FALSE,     \* a device call raised: the next plan resumption must be the throw of that error
     failPending |-> FALSE,       \* a status failed and has not been thrown into the plan yet
+    curCmd |-> "",               \* command of the message being executed ("" = none: asynchronous emission)
+    movedEver |-> {},            \* devices set during this call
     curRun |-> "none",           \* run key of the message being executed ("none": no message in progress)
     keyOrd |-> [k \in RunKeys |-> 0],        \* run key -> ordinal of the run currently open under that key
     pendingOpen |-> "none",
@@ -136,7 +138,7 @@ UpdDoc(m, e) ==
                 m4 == IF StreamClass(stream) = "bundle" /\ m.curRun \in RunKeys THEN [m3 EXCEPT !.gotEvent = TRUE] ELSE m3
             IN [m4 EXCEPT !.runs[ord].maxseq[stream] = IF seq > mx THEN seq ELSE mx,
                           !.runs[ord].next[stream] = seq + 1,
-                          !.runs[ord].since[stream] = IF StreamClass(stream) = "bundle" /\ m.rewFlag /\ m.ckpt THEN @ + 1 ELSE @,
+                          !.runs[ord].since[stream] = IF m.curCmd = "save" /\ m.rewFlag /\ m.ckpt THEN @ + 1 ELSE @,
                           !.runs[ord].rewAtLast[stream] = m.rew]
        ELSE IF name = "stop" THEN
             [m EXCEPT !.runs[ord].stopped = 1, !.runs[ord].status = status,
@@ -170,7 +172,7 @@ UpdDev(m, e) ==
                                                                                      /\ \E b \in {DevBit(d)} : \E k \in 0..63 : ToString(k) = m.runs[o].dmask[sn] /\ HasBit(k, b)}]
                                     ELSE m.runs[o]]]
          [] op = "unstage" -> [m EXCEPT !.dev[d].stg = IF @ > 0 THEN @ - 1 ELSE 0]
-         [] op = "set" -> [m EXCEPT !.dev[d].dirty = TRUE]
+         [] op = "set" -> [m EXCEPT !.dev[d].dirty = TRUE, !.movedEver = @ \cup {d}]
          [] op = "stop" -> [m EXCEPT !.dev[d].dirty = FALSE, !.suspStopDue = @ \ {d}]
          [] op = "subscribe" -> [m EXCEPT !.dev[d].subs = @ + 1]
          [] op = "clear_sub" -> [m EXCEPT !.dev[d].subs = IF @ > 0 THEN @ - 1 ELSE 0]
@@ -199,7 +201,7 @@ UpdMsg(m0, e) ==
                         IF mA.gotEvent THEN "C15:event-from-empty-bundle" ELSE "C15:event-missing")
       \* C13: this is the main plan's own message if the plan has just yielded
       mC == IF mB.genYielded THEN [mB EXCEPT !.genYielded = FALSE, !.planMsg = [cmd |-> cmd, obj |-> obj, run |-> run]] ELSE mB
-      mD == [mC EXCEPT !.curRun = run]
+      mD == [mC EXCEPT !.curRun = run, !.curCmd = cmd]
       \* C14: open_run bookkeeping
       mE == IF cmd = "open_run" /\ run \in RunKeys
             THEN (IF mD.keyOrd[run] # 0 THEN [mD EXCEPT !.dupOpen = TRUE] ELSE [mD EXCEPT !.pendingOpen = run, !.dupOpen = FALSE])
@@ -253,7 +255,7 @@ UpdMsg(m0, e) ==
              THEN ViolIf([m4p EXCEPT !.trips = IF @ > 0 THEN @ - 1 ELSE 0], m4p.trips = 0, "C31:suspended-without-tripped-suspender")
              ELSE m4p
       m5 == IF cmd = "_start_suspender"
-            THEN [m4s EXCEPT !.suspStopDue = {d \in Devices : m4.dev[d].dirty},
+            THEN [m4s EXCEPT !.suspStopDue = m4.movedEver,
                             !.runs = [o \in 1..MaxRuns |-> IF m4.runs[o].started /\ m4.runs[o].stopped = 0 /\ m4.recIntr
                                                             THEN [m4.runs[o] EXCEPT !.intrWant = @ + 1] ELSE m4.runs[o]]]
             ELSE m4s
@@ -261,7 +263,7 @@ UpdMsg(m0, e) ==
 
 UpdGen(mIn, e) ==
   LET inp == e[2] val == e[3] react == e[4]
-      m0 == [mIn EXCEPT !.inObsClose = FALSE, !.curRun = "none"]
+      m0 == [mIn EXCEPT !.inObsClose = FALSE, !.curRun = "none", !.curCmd = ""]
       \* C15: a pending save expectation is settled when the plan is resumed
       m1 == IF m0.expectEvent = "none" THEN m0
             ELSE ViolIf([m0 EXCEPT !.expectEvent = "none", !.gotEvent = FALSE],
@@ -328,7 +330,7 @@ UpdState(m, e) ==
       m1c == IF n \in {"aborting", "stopping", "halting"} /\ lastq.kind \in {"abort", "stop", "halt"} /\ lastq.out = ""
              THEN (IF lastq.pc = "tail" THEN [m1b EXCEPT !.termLate = @ \cup {lastq.kind}] ELSE [m1b EXCEPT !.term = @ \cup {lastq.kind}])
              ELSE m1b
-      m2 == [m1c EXCEPT !.pausedNow = (n = "paused"), !.st = n, !.curRun = "none"]
+      m2 == [m1c EXCEPT !.pausedNow = (n = "paused"), !.st = n, !.curRun = "none", !.curCmd = ""]
       \* C09: the pause that follows a deferred request: nothing to replay
       m3 == IF n = "paused" /\ m.deferCkpt THEN ViolIf([m2 EXCEPT !.deferPending = FALSE, !.deferCkpt = FALSE], m.since # <<>>, "C09:replay-after-deferred-pause")
             ELSE IF n = "pausing" /\ ~m.deferCkpt THEN [m2 EXCEPT !.deferPending = FALSE] ELSE m2
@@ -378,8 +380,10 @@ UpdRet(m, e, s2) ==
                    "C12:unhandled-exception-not-raised")
       m1 == ViolIf(m0, st \notin {"idle", "paused"}, "C07:not-settled:" \o st)
       m2 == IF outcome = "interrupted"
-            THEN ViolIf(m1, ~((st = "paused" /\ resumable = 1) \/ (terminated /\ st = "idle" /\ allStopped)),
-                        "C08:interrupted-but-" \o st)
+            THEN ViolIf(ViolIf(m1, ~((st = "paused" /\ resumable = 1) \/ (terminated /\ st = "idle" /\ allStopped)),
+                               "C08:interrupted-but-" \o st),
+                        \* an interruption requested in a non-resumable section must end idle, not paused
+                        st = "paused" /\ m.failedPause, "C08:paused-in-non-resumable-section")
             ELSE IF outcome = "ok" /\ op \in {"run", "resume"}
             THEN ViolIf(m1, ~(st = "idle" /\ m.planDone), "C08:normal-return-without-completion")
             ELSE m1
@@ -423,10 +427,12 @@ UpdSus(m, e) ==
     [] OTHER -> m
 
 UpdReq(m, e, s) ==
-  IF e[2] \in {"sus_install", "sus_remove", "sig_put"} THEN UpdSus([m EXCEPT !.reqs = Append(@, [kind |-> e[2], pc |-> Where(m), st |-> m.st, res |-> m.ckpt, out |-> "", after |-> m.lastCmd])], e) ELSE
+  IF e[2] \in {"sus_install", "sus_remove", "sig_put"}
+  THEN UpdSus([m EXCEPT !.curCmd = "", !.curRun = "none",
+                        !.reqs = Append(@, [kind |-> e[2], pc |-> Where(m), st |-> m.st, res |-> m.ckpt, out |-> "", after |-> m.lastCmd])], e) ELSE
   LET kind == e[2]
       rec == [kind |-> kind, pc |-> Where(m), st |-> m.st, res |-> m.ckpt, out |-> "", after |-> m.lastCmd]
-  IN [m EXCEPT !.reqs = Append(@, rec)]
+  IN [m EXCEPT !.reqs = Append(@, rec), !.curCmd = "", !.curRun = "none"]
 
 UpdReqRet(m, e, s2) ==
   LET kind == e[2] out == e[3]
@@ -444,7 +450,7 @@ UpdReqRet(m, e, s2) ==
 
 UpdCall(m, e, s) ==
   LET op == e[2] IN
-  IF op = "run" THEN [m EXCEPT !.c04off = FALSE, !.recIntr = (e[3] = "ri"), !.genYielded = FALSE, !.planMsg = [cmd |-> "", obj |-> "", run |-> ""], !.planRaised = "",
+  IF op = "run" THEN [m EXCEPT !.movedEver = {}, !.curCmd = "", !.c04off = FALSE, !.recIntr = (e[3] = "ri"), !.genYielded = FALSE, !.planMsg = [cmd |-> "", obj |-> "", run |-> ""], !.planRaised = "",
                                !.devErrPending = FALSE, !.failPending = FALSE, !.curRun = "none", !.pendingOpen = "none", !.dupOpen = FALSE,
                                !.bundle = [k \in RunKeys |-> [open |-> FALSE, mask |-> 0, n |-> 0, collide |-> FALSE]],
                                !.expectEvent = "none", !.gotEvent = FALSE, !.suspStopDue = {}, !.gotData = {},
@@ -503,7 +509,7 @@ C07Settled == {"C07:not-settled:running", "C07:not-settled:pausing", "C07:not-se
                "C07:not-settled:stopping", "C07:not-settled:aborting", "C07:not-settled:panicked"}
 C08Tags == {"C08:interrupted-but-idle", "C08:interrupted-but-paused", "C08:interrupted-but-running", "C08:interrupted-but-pausing",
             "C08:interrupted-but-suspending", "C08:interrupted-but-aborting", "C08:interrupted-but-stopping", "C08:interrupted-but-halting",
-            "C08:normal-return-without-completion"}
+            "C08:normal-return-without-completion", "C08:paused-in-non-resumable-section"}
 C09Tags == {"C09:pending-deferred-pause-not-reported", "C09:message-after-deferred-checkpoint", "C09:replay-after-deferred-pause"}
 C10Tags == {"C10:paused-after-failed-pause", "C10:not-reported"}
 C11Tags == {"C11:plan-ran-while-suspender-tripped", "C11:moved-not-stopped-at-suspension", "C11:plan-resumed-during-suspension", "C11:returned-during-suspension"}
